@@ -6,6 +6,7 @@ import (
 	"encoding/json"
 	"fmt"
 	"os"
+	"path/filepath"
 	"strings"
 	"testing"
 
@@ -29,6 +30,10 @@ type c07Case struct {
 	Setup   []model.Stmt `json:"setup"`
 	Perm    []int        `json:"perm"` // order in which t0's rows are inserted into the shadow database
 	Queries []c07Query   `json:"queries"`
+	// TwoDB: afterwards the same query texts go through Session.ExecQuery,
+	// alternating between this database and a second one that holds tables of
+	// the same names with only every other row of t0
+	TwoDB bool `json:"two_db,omitempty"`
 }
 
 func c07Gen(rt *rapid.T) c07Case {
@@ -50,6 +55,7 @@ func c07Gen(rt *rapid.T) c07Case {
 	} else {
 		c.Perm = idx
 	}
+	c.TwoDB = rapid.IntRange(0, 2).Draw(rt, "twodb") == 0
 	n := rapid.IntRange(1, 8).Draw(rt, "nqueries")
 	for i := 0; i < n; i++ {
 		q := gen.AggQuery(rt, db)
@@ -342,6 +348,67 @@ func c07Run(c c07Case, st *vlib.Stats) string {
 			}
 		}
 	}
+	if !c.TwoDB {
+		return ""
+	}
+	// The console's route, over two databases in one session: what the session
+	// prints for a query must be the table of the result evaluated directly in
+	// the database that is selected at that moment.
+	mO := model.NewDB()
+	if err := engB.Exec("CREATE DATABASE d_other"); err != nil {
+		return "CREATE DATABASE d_other failed: " + err.Error()
+	}
+	if err := engB.Exec("USE d_other"); err != nil {
+		return "USE d_other failed: " + err.Error()
+	}
+	nth := 0
+	for _, s := range c.Setup {
+		if s.Kind == "insert" && s.Table == "t0" {
+			nth++
+			if nth%2 == 0 {
+				continue
+			}
+		}
+		mO.Apply(s)
+		if err := engB.ExecStmt(s); err != nil {
+			return fmt.Sprintf("second database: setup statement refused: %v (%s)", err, s)
+		}
+	}
+	scratch := filepath.Join(WorkDir, "c07-stdout.txt")
+	for round := 0; round < 2; round++ {
+		for _, dbn := range []string{DBName, "d_other"} {
+			if err := engB.Exec("USE " + dbn); err != nil {
+				return fmt.Sprintf("USE %s failed: %v", dbn, err)
+			}
+			for qi, cq := range c.Queries {
+				res, err := engB.Query(cq.SQL)
+				if err != nil {
+					continue // refusals were dealt with above
+				}
+				if dbn == "d_other" {
+					out, rerr := ref.Eval(mO, cq.Q)
+					if rerr != nil {
+						return fmt.Sprintf("harness: query %d is not valid for the reference in the second database: %v", qi, rerr)
+					}
+					if msg, legacy := matchAggregates(res, out); msg != "" && !legacy {
+						return fmt.Sprintf("query %d in the second database: %s\n  %q", qi, msg, cq.SQL)
+					}
+				}
+				printed, err := engB.ExecCapture(cq.SQL, scratch)
+				if err != nil {
+					return fmt.Sprintf("query %d evaluates but Session.ExecQuery failed in database %s: %v\n  %q", qi, dbn, err, cq.SQL)
+				}
+				if want := mk.FormatTable(res); !strings.HasSuffix(printed, want) {
+					tail := printed
+					if len(tail) > len(want)+200 {
+						tail = tail[len(tail)-len(want)-200:]
+					}
+					return fmt.Sprintf("query %d, database %s selected (round %d): Session.ExecQuery printed a different result than evaluating the statement in that database gives\n  %q\n  printed (tail): %q\n  expected table: %q", qi, dbn, round, cq.SQL, tail, want)
+				}
+			}
+		}
+	}
+	st.Label("session-route-over-two-databases", 1)
 	return ""
 }
 
